@@ -250,6 +250,118 @@ def gen_hole_masked_case(rng):
     return ops
 
 
+def _two_contents(rng, n, proto=253, nopt=0, df=False):
+    """two datagrams with the SAME reassembly key and different payloads: fragments cut from both conflict in content"""
+    p0 = bytes(rng.randrange(256) for _ in range(n))
+    p1 = bytes((b + 1 + rng.randrange(255)) % 256 for b in p0)            # differs in every byte
+    d0 = Dg("d0", 7, A, B, proto, 0, df, nopt, p0, [n])
+    d1 = Dg("d1", 7, A, B, proto, 0, df, nopt, p1, [n])
+    return d0, d1
+
+
+def pair_overlap_cases(rng):
+    """every pair of fragments [0, 8a) and [8(a-k), n) that overlap by 8k bytes (n = 64 and 61), both arrival orders,
+    same and conflicting content, with and without a third fragment that would make the byte count equal the total"""
+    out = []
+    for n in (64, 61):
+        for a in range(1, 8):
+            for k in range(1, a + 1):
+                for order in (0, 1):
+                    for conflict in (False, True):
+                        d0, d1 = _two_contents(rng, n)
+                        f1 = d0.frag((0, 8 * a), 10, False, True)
+                        f2 = (d1 if conflict else d0).frag((8 * (a - k), n - 8 * (a - k)), 11, True, False)
+                        seq = [f1, f2] if order == 0 else [f2, f1]
+                        # a duplicate offset with another length, then the fragments that would have been right
+                        seq.append(d0.frag((0, 8 * (a - k)), 12, False, True) if a > k else d0.frag((0, n), 12, False, False))
+                        out.append(["case", d0.op(), d1.op()] + seq)
+    return out
+
+
+def grid_cases(units, length, rng, limit=None, sample=None):
+    """small-scope exhaustive over hostile histories: every sequence of `length` fragments whose bounds lie on an
+    8-byte grid of `units` units, each with either more-fragments value and cut from either of two datagrams that share
+    the key but not the content (overlaps, same offset / different lengths, several last fragments, a last fragment
+    that ends before data already held, holes masked by overlaps)"""
+    n = 8 * units - 3
+    ivs = [(s, e) for s in range(units) for e in range(s + 1, units + 1)]
+    opts = [(s, e, mf, src) for (s, e) in ivs for mf in (True, False) for src in (0, 1)]
+    d0, d1 = _two_contents(rng, n)
+    head = ["case", d0.op(), d1.op()]
+
+    def mk(seq):
+        ops = list(head)
+        for i, (s, e, mf, src) in enumerate(seq):
+            ops.append((d0, d1)[src].frag((8 * s, min(8 * e, n) - 8 * s), 20 + i, False, mf))
+        return ops
+    if sample is not None:
+        return [mk([rng.choice(opts) for _ in range(rng.randint(2, length))]) for _ in range(sample)]
+    out = []
+    for seq in itertools.product(opts, repeat=length):
+        out.append(mk(seq))
+        if limit and len(out) >= limit:
+            break
+    return out
+
+
+def gen_conflicting_last_case(rng):
+    """two (or three) different last fragments, in any order, with the fragments below them; the datagram the
+    implementation may produce must still be an exact cover ending in a fragment without more-fragments"""
+    units = rng.randint(3, 7)
+    n = 8 * units
+    d0, d1 = _two_contents(rng, n, proto=rng.choice(RAW_PROTOS))
+    ends = sorted(rng.sample(range(1, units + 1), rng.randint(2, min(3, units))))
+    frs = []
+    prev = 0
+    for e in ends:
+        s = rng.randint(prev, e - 1) if rng.random() < 0.5 else prev
+        frs.append((rng.choice([d0, d0, d1]), (8 * s, 8 * (e - s)), False))           # a "last" fragment ending at 8e
+        if s > 0 and rng.random() < 0.8:
+            frs.append((d0, (0, 8 * s), True))
+        prev = e
+    if rng.random() < 0.5:
+        frs.append((d0, (0, 8), True))
+    rng.shuffle(frs)
+    return ["case", d0.op(), d1.op()] + [d.frag(p, rng.randrange(256), rng.random() < 0.5, mf) for d, p, mf in frs]
+
+
+def gen_same_offset_case(rng):
+    """fragments of different lengths (and contents) at one offset; later the fragments that complete either reading"""
+    units = rng.randint(2, 6)
+    n = 8 * units - rng.choice([0, 0, 5])
+    d0, d1 = _two_contents(rng, n, proto=rng.choice(RAW_PROTOS))
+    s = rng.randrange(units)
+    e1, e2 = rng.sample(range(s + 1, units + 2), 2) if units - s >= 1 else (units, units + 1)
+    e1, e2 = min(e1, units), min(e2, units)
+    cut = lambda a, b: (8 * a, min(8 * b, n) - 8 * a)
+    frs = [(d0, cut(s, e1), 8 * e1 < n), (rng.choice([d0, d1]), cut(s, max(e2, s + 1)), 8 * e2 < n)]
+    rest = [(d0, cut(0, s), True)] if s > 0 else []
+    for e in {e1, e2}:
+        if e < units:
+            rest.append((d0, cut(e, units), False))
+    rng.shuffle(rest)
+    if rng.random() < 0.5:
+        frs.reverse()
+    seq = frs + rest if rng.random() < 0.6 else rest + frs
+    return ["case", d0.op(), d1.op()] + [d.frag(p, rng.randrange(256), False, mf) for d, p, mf in seq if p[1] > 0]
+
+
+def oversize_cases(rng):
+    """offset + length beyond what an IPv4 datagram can hold: header + total on both sides of 65535 (with and without
+    options), the last fragment at the highest offset 65528, and far beyond"""
+    out = []
+    for nopt, total in [(0, 65515), (0, 65516), (1, 65511), (1, 65512), (0, 65528 + 40), (0, 65535), (2, 65600)]:
+        payload = bytes(rng.randrange(256) for _ in range(total))
+        cuts = [0, 8 * rng.randint(1, 4000), 8 * rng.randint(4001, 8000), 65504 if total > 65504 else 8 * 8100, total]
+        cuts = sorted(set(c for c in cuts if c <= total))
+        lens = [b - a for a, b in zip(cuts, cuts[1:])]
+        d = Dg("d0", 9, A, B, 253, 0, False, nopt, payload, lens)
+        ev = list(d.pieces)
+        rng.shuffle(ev)
+        out.append(["case", d.op()] + [d.frag(p, 64, False) for p in ev] + [d.frag(ev[0], 64, False)])
+    return out
+
+
 def kf_witness_case():
     """the Lean refutation witness `Tins.Props.C08.kfEvs` (key_reuse_refines_fails), replayed on the real code"""
     old = Dg("d0", 7, 1, 2, 253, 0, False, 0, bytes(range(16)), [8, 8])
@@ -381,7 +493,19 @@ def run(chk):
         go([gen_valid_case(rng) for _ in range(min(20000, n_valid - i))])
     go([gen_valid_case(rng, max_len=3000, max_pieces=40, max_dg=3) for _ in range(40 if quick else 600)])
     go([gen_valid_case(rng, max_len=65515, max_pieces=60, max_dg=2) for _ in range(3 if quick else 60)])
-    # 4. hostile histories (model/implementation correspondence)
+    # 4. hostile histories (model/implementation correspondence + the safety oracle for arbitrary histories)
+    go(pair_overlap_cases(rng))
+    go(oversize_cases(rng)[:(3 if quick else 7)])
+    go(grid_cases(4, 2, rng))                                                       # exhaustive: 40^2 sequences
+    if quick:
+        go(grid_cases(5, 5, rng, sample=3000))
+    else:
+        gc = grid_cases(3, 3, rng)                                                  # exhaustive: 24^3 sequences
+        for i in range(0, len(gc), 20000):
+            go(gc[i:i + 20000])
+        go(grid_cases(6, 6, rng, sample=60000))
+    go([gen_conflicting_last_case(rng) for _ in range(400 if quick else 8000)])
+    go([gen_same_offset_case(rng) for _ in range(400 if quick else 8000)])
     go([gen_hole_masked_case(rng) for _ in range(300 if quick else 5000)])
     n_host = 3000 if quick else 80000
     for i in range(0, n_host, 20000):
